@@ -442,3 +442,18 @@ package locate
 //@   loop 2 invariant l2: true
 //@   loop 3 invariant l3: true
 //@   ensures paid: result0 && result1 == nil ==> bo.backoffTimes[retry.regionMissKind()] == old(bo.backoffTimes[retry.regionMissKind()]) + 1
+
+// ServerIsBusy with a replica selector: the retry is either paid at once with a server-busy back-off, or - fast retry on
+// another replica - the busy replica is marked and a pending back-off is registered for its store, which backoffOnRetry pays
+// when that store is sent to again (that function is not under contract: its precondition - every registered entry carries
+// an error - is a data invariant this file does not carry through the send loop).
+//@ func (*baseReplicaSelector) addPendingBackoff
+//@   prop C10
+//@   ensures registered: s.pendingBackoffs != nil && inDom(s.pendingBackoffs, ite(store != nil, store.storeID, 0)) && s.pendingBackoffs[ite(store != nil, store.storeID, 0)] != nil && s.pendingBackoffs[ite(store != nil, store.storeID, 0)].cfg == cfg
+//@ func (*replicaSelector) onServerIsBusy
+//@   prop C10
+//@   may-panic
+//@   requires serverIsBusy != nil
+//@   opaque-callee updateServerLoadStats markAlreadySlow GetLeaderPeerID canFastRetry ToBackoffReasonString Cop
+//@   at return assert paidOrPending: shouldRetry && err == nil ==> bo.backoffTimes[retry.tikvBusyKind()] == old(bo.backoffTimes[retry.tikvBusyKind()]) + 1 ||
+//@       (s.pendingBackoffs != nil && inDom(s.pendingBackoffs, ite(store != nil, store.storeID, 0)) && (s.target != nil ==> (s.target.flag / 8) % 2 == 1))
